@@ -5,8 +5,9 @@ From FV Require Import Common.EventLog Seq.SlotModel Seq.SlotProofs Seq.LogProof
   Seq.VectorModel Seq.VectorProofs.
 Import ListNotations.
 
-Section WithElemSize.
+Section WithElem.
 Variable esz : N.
+Variable veq : V -> V -> bool.
 
 (* footprint slots: 0..2 the registers, 3 the by-value parameter of operator=, 4 spare (growth) *)
 Definition VK : nat := 5.
@@ -18,10 +19,28 @@ Definition vfp (v : vec) : fpr :=
 Lemma vfp_empty : vfp vec_empty = fp0.
 Proof. reflexivity. Qed.
 
-Lemma vfp_rel v : match f_heap (vfp v) with
-                  | None => free_ev (v_blk v) = []
-                  | Some (b, n) => free_ev (v_blk v) = [EFree b] \/ free_ev (v_blk v) = [EDealloc b n] end.
-Proof. unfold vfp, free_ev. cbn [f_heap]. destruct (Nat.eqb (v_blk v) 0); [reflexivity | now left]. Qed.
+(* names of blocks: enc al nb is fresh above the bound NINST * nb and below NINST * S nb; a release through the
+   instance that handed the block out names the block itself *)
+Lemma enc_ge al nb : NINST * nb <= enc al nb.
+Proof. unfold enc. lia. Qed.
+Lemma enc_lt al nb : al < NINST -> S (enc al nb) <= NINST * S nb.
+Proof. unfold enc. lia. Qed.
+Lemma reenc_enc al nb : al < NINST -> reenc al (enc al nb) = enc al nb.
+Proof.
+  intros H. unfold reenc, enc. f_equal. f_equal. rewrite Nat.div_add_l by (unfold NINST; lia).
+  rewrite Nat.div_small by exact H. lia.
+Qed.
+
+(* the allocator instance al is the one that handed out the block of v *)
+Definition aok (al : nat) (v : vec) : Prop := al < NINST /\ (v_blk v <> 0 -> reenc al (v_blk v) = v_blk v).
+
+Lemma vfp_rel al v : aok al v ->
+  match f_heap (vfp v) with
+  | None => free_ev al (v_blk v) = []
+  | Some (b, n) => free_ev al (v_blk v) = [EFree b] \/ free_ev al (v_blk v) = [EDealloc b n] end.
+Proof.
+  intros (_ & A). unfold vfp, free_ev. cbn [f_heap]. destruct (Nat.eqb_spec (v_blk v) 0); [reflexivity | left; now rewrite A].
+Qed.
 
 Lemma heap_nm_nmk b : heap_nm b = nmk b 0.
 Proof. reflexivity. Qed.
@@ -35,27 +54,34 @@ Proof.
   rewrite Hb in Hs. cbn in Hs. lia.
 Qed.
 
+Lemma TR_mono ls fs nb nb' : nb <= nb' -> TR ls fs nb -> TR ls fs nb'.
+Proof. intros H (T & G & E). split; [exact T|]. split; [eapply good_mono; eauto | exact E]. Qed.
+
 (* ---- _ensure_capacity *)
-Lemma g_grow ls fs nb r v l c : TR ls fs nb -> r < 4 -> fs r = vfp v -> vinv v l ->
-  exists ls', ev_run ls (grow_evs esz nb c v l) = Some ls' /\
-    TR ls' (set_reg fs r (vfp (grown nb c v l))) (grown_nb nb c v).
+Lemma g_grow ls fs al nb r v l c : TR ls fs (NINST * nb) -> r < 4 -> fs r = vfp v -> vinv v l -> aok al v ->
+  exists ls', ev_run ls (grow_evs esz al (enc al nb) c v l) = Some ls' /\
+    TR ls' (set_reg fs r (vfp (grown (enc al nb) c v l))) (NINST * grown_nb nb c v).
 Proof.
-  intros (T & G & Esp) Hr Er (Hs & Hc & _). unfold grow_evs, grown, grown_nb.
+  intros (T & G & Esp) Hr Er (Hs & Hc & _) Ak. unfold grow_evs, grown, grown_nb.
   destruct (Nat.leb c (v_cap v)) eqn:E.
   - exists ls. split; [reflexivity|]. split; [|split].
     + eapply tracks_ext; [|exact T]. intros j _. unfold set_reg. destruct (Nat.eqb_spec j r); [now subst | reflexivity].
     + eapply good_ext; [|exact G]. intros j _. unfold set_reg. destruct (Nat.eqb_spec j r); [now subst | reflexivity].
     + rewrite set_reg_other by lia. exact Esp.
-  - apply Nat.leb_gt in E. pose proof G as (Nz & _).
-    destruct (fp_relocate VK ls fs nb r 4 (2 * c) ((esz * N.of_nat (2 * c))%N) (free_ev (v_blk v)) T G) as (ls' & E' & T' & G');
+  - apply Nat.leb_gt in E. pose proof G as (Nz & _). pose proof Ak as (Al & _).
+    assert (Bz : enc al nb <> 0) by (pose proof (enc_ge al nb); lia).
+    destruct (fp_relocate VK ls fs (NINST * nb) (enc al nb) r 4 (2 * c) (esz * N.of_nat (2 * c))%N (free_ev al (v_blk v)) T G) as (ls' & E' & T' & G');
       try (unfold VK; lia); try exact Esp.
     { rewrite Er. cbn [vfp f_size]. lia. }
-    { rewrite Er. apply vfp_rel. }
+    { apply enc_ge. }
+    { rewrite Er. apply vfp_rel. exact Ak. }
     rewrite Er in E', T', G'. cbn [vfp f_size f_nm f_k f_off] in E', T', G'. rewrite Hs in E', T', G'.
     exists ls'. split; [rewrite !heap_nm_nmk; exact E'|].
-    assert (Ef : vfp (mk_vec nb (slots l (2 * c)) (length l) (2 * c)) = mk_fp nb 0 (length l) (2 * c) (Some (nb, (esz * N.of_nat (2 * c))%N))).
-    { unfold vfp. cbn [v_blk v_size v_cap]. now rewrite (proj2 (Nat.eqb_neq nb 0) Nz). }
-    rewrite Ef. split; [exact T' | split; [exact G' | rewrite set_reg_other by lia; exact Esp]].
+    assert (Ef : vfp (mk_vec (enc al nb) (slots l (2 * c)) (length l) (2 * c)) =
+                 mk_fp (enc al nb) 0 (length l) (2 * c) (Some (enc al nb, (esz * N.of_nat (2 * c))%N))).
+    { unfold vfp. cbn [v_blk v_size v_cap]. now rewrite (proj2 (Nat.eqb_neq (enc al nb) 0) Bz). }
+    rewrite Ef. apply (TR_mono _ _ (S (enc al nb))); [now apply enc_lt|].
+    split; [exact T' | split; [exact G' | rewrite set_reg_other by lia; exact Esp]].
 Qed.
 
 Lemma grown_blk_size nb c v l : vinv v l -> v_size (grown nb c v l) = length l.
@@ -106,56 +132,75 @@ Proof.
 Qed.
 
 (* ---- destructor of the vector in slot r *)
-Lemma g_destruct ls fs nb r v l : TR ls fs nb -> r < 4 -> fs r = vfp v -> vinv v l ->
-  exists ls', ev_run ls (destroy_evs (heap_nm (v_blk v)) 0 (length l) ++ free_ev (v_blk v)) = Some ls' /\
+Lemma g_destruct ls fs al nb r v l : TR ls fs nb -> r < 4 -> fs r = vfp v -> vinv v l -> aok al v ->
+  exists ls', ev_run ls (destroy_evs (heap_nm (v_blk v)) 0 (length l) ++ free_ev al (v_blk v)) = Some ls' /\
     TR ls' (set_reg fs r fp0) nb.
 Proof.
-  intros TRs Hr Er (Hs & _). pose proof TRs as (T & G & Esp). pose proof G as (Nz & _).
-  destruct (fp_destruct VK ls fs nb r fp0 (free_ev (v_blk v)) T G) as (ls' & E & T' & G'); try (unfold VK; lia); try reflexivity.
+  intros TRs Hr Er (Hs & _) Ak. pose proof TRs as (T & G & Esp). pose proof G as (Nz & _).
+  destruct (fp_destruct VK ls fs nb r fp0 (free_ev al (v_blk v)) T G) as (ls' & E & T' & G'); try (unfold VK; lia); try reflexivity.
   { now apply fp_ok_fp0. }
   { intros j _ _. apply sep_fp0. }
-  { rewrite Er. apply vfp_rel. }
+  { rewrite Er. now apply vfp_rel. }
   rewrite Er in E. cbn [vfp f_size f_nm f_k f_off] in E. rewrite Hs in E.
   exists ls'. split; [exact E|]. now apply TR_set.
 Qed.
 
-(* ---- copy construction from the vector in slot s into the empty slot t *)
-Lemma g_copy ls fs nb s t o l : TR ls fs nb -> s < 4 -> t < 4 -> s <> t -> fs s = vfp o -> fs t = fp0 -> vinv o l ->
-  exists ls', ev_run ls (copy_evs esz nb o l) = Some ls' /\
-    TR ls' (set_reg fs t (vfp (copied nb l))) (copied_nb nb l).
+(* ---- copy construction from the vector in slot s into the empty slot t; the new vector is on instance al *)
+Lemma g_copy ls fs al nb s t o l : TR ls fs (NINST * nb) -> s < 4 -> t < 4 -> s <> t -> fs s = vfp o -> fs t = fp0 -> vinv o l ->
+  al < NINST ->
+  exists ls', ev_run ls (copy_evs esz (enc al nb) o l) = Some ls' /\
+    TR ls' (set_reg fs t (vfp (copied (enc al nb) l))) (NINST * copied_nb nb l).
 Proof.
-  intros TRs Hs Ht Nst Es Et (Os & Oc & _). pose proof TRs as (T & G & Esp). pose proof G as (Nz & _).
+  intros TRs Hs Ht Nst Es Et (Os & Oc & _) Al. pose proof TRs as (T & G & Esp). pose proof G as (Nz & _).
   unfold copy_evs, copied, copied_nb. destruct (Nat.leb (length l) 0) eqn:E.
   - apply Nat.leb_le in E. assert (length l = 0) as L0 by lia. rewrite L0. cbn [app xfer_evs seq flat_map].
     exists ls. split; [reflexivity|]. rewrite vfp_empty.
     eapply TR_ext; [|exact TRs]. intros j. unfold set_reg. destruct (Nat.eqb_spec j t); [now subst | reflexivity].
-  - apply Nat.leb_gt in E.
-    destruct (fp_alloc VK ls fs nb t (2 * length l) ((esz * N.of_nat (2 * length l))%N) T G) as (l1 & E1 & T1 & G1);
-      try (unfold VK; lia); try (now rewrite Et).
-    set (fs1 := set_reg fs t (mk_fp nb 0 0 (2 * length l) (Some (nb, (esz * N.of_nat (2 * length l))%N)))) in *.
+  - apply Nat.leb_gt in E. set (b := enc al nb).
+    assert (Bz : b <> 0) by (pose proof (enc_ge al nb); unfold b; lia).
+    destruct (fp_alloc VK ls fs (NINST * nb) b t (2 * length l) ((esz * N.of_nat (2 * length l))%N) T G) as (l1 & E1 & T1 & G1);
+      try (unfold VK; lia); try (now rewrite Et); [apply enc_ge|].
+    set (fs1 := set_reg fs t (mk_fp b 0 0 (2 * length l) (Some (b, (esz * N.of_nat (2 * length l))%N)))) in *.
     assert (F1s : fs1 s = vfp o) by (unfold fs1; now rewrite set_reg_other).
-    assert (F1t : fs1 t = mk_fp nb 0 0 (2 * length l) (Some (nb, (esz * N.of_nat (2 * length l))%N))) by (unfold fs1; now rewrite set_reg_same).
-    destruct (fp_xfer VK l1 fs1 (S nb) s t T1 G1) as (l2 & E2 & T2 & G2); try (unfold VK; lia).
+    assert (F1t : fs1 t = mk_fp b 0 0 (2 * length l) (Some (b, (esz * N.of_nat (2 * length l))%N))) by (unfold fs1; now rewrite set_reg_same).
+    destruct (fp_xfer VK l1 fs1 (S b) s t T1 G1) as (l2 & E2 & T2 & G2); try (unfold VK; lia).
     { now rewrite F1t. }
     { rewrite F1s, F1t. cbn [vfp f_size f_lim]. lia. }
     rewrite F1s, F1t in E2, T2, G2. cbn [vfp f_size f_nm f_k f_off resize_fp f_lim f_heap] in E2, T2, G2. rewrite Os in E2, T2, G2.
     exists l2. split.
     + rewrite (ev_run_app_some _ _ _ _ E1). rewrite !heap_nm_nmk. exact E2.
-    + assert (Ef : vfp (mk_vec nb (slots l (2 * length l)) (length l) (2 * length l)) =
-                   mk_fp nb 0 (length l) (2 * length l) (Some (nb, (esz * N.of_nat (2 * length l))%N))).
-      { unfold vfp. cbn [v_blk v_size v_cap]. now rewrite (proj2 (Nat.eqb_neq nb 0) Nz). }
-      rewrite Ef. eapply TR_ext with (fs := set_reg fs1 t _).
+    + assert (Ef : vfp (mk_vec b (slots l (2 * length l)) (length l) (2 * length l)) =
+                   mk_fp b 0 (length l) (2 * length l) (Some (b, (esz * N.of_nat (2 * length l))%N))).
+      { unfold vfp. cbn [v_blk v_size v_cap]. now rewrite (proj2 (Nat.eqb_neq b 0) Bz). }
+      rewrite Ef. apply (TR_mono _ _ (S b)); [now apply enc_lt|]. eapply TR_ext with (fs := set_reg fs1 t _).
       * intros j. unfold fs1. now rewrite set_reg_set.
       * split; [exact T2|]. split; [exact G2|]. unfold fs1. rewrite !set_reg_other by lia. exact Esp.
 Qed.
 
-
+(* per-vector side invariants: a null block has no capacity; the vector's allocator instance handed out its block *)
 Definition vz (v : vec) : Prop := v_blk v = 0 -> v_cap v = 0.
+Definition vok (al : nat) (v : vec) : Prop := vz v /\ aok al v.
 
 Lemma vz_grown nb c v l : nb <> 0 -> vz v -> vz (grown nb c v l).
 Proof. intros N Z. unfold grown. destruct (Nat.leb c (v_cap v)); [exact Z | intros H; cbn in H; congruence]. Qed.
-Lemma vz_copied nb l : nb <> 0 -> vz (copied nb l).
-Proof. intros N. unfold copied. destruct (Nat.leb (length l) 0); [intros _; reflexivity | intros H; cbn in H; congruence]. Qed.
+Lemma enc_nz al nb : nb <> 0 -> enc al nb <> 0.
+Proof. intros H. pose proof (enc_ge al nb). unfold NINST in *. lia. Qed.
+Lemma vok_grown al nb c v l : nb <> 0 -> vok al v -> vok al (grown (enc al nb) c v l).
+Proof.
+  intros N (Z & Al & A). split; [apply vz_grown; [now apply (enc_nz al) | exact Z]|]. split; [exact Al|].
+  unfold grown. destruct (Nat.leb c (v_cap v)); [exact A | intros _; cbn [v_blk]; now apply reenc_enc].
+Qed.
+Lemma vok_copied al nb l : nb <> 0 -> al < NINST -> vok al (copied (enc al nb) l).
+Proof.
+  intros N Al. unfold copied. destruct (Nat.leb (length l) 0).
+  - split; [intros _; reflexivity | split; [exact Al | intros H; cbn in H; congruence]].
+  - split; [intros H; cbn in H; apply (enc_nz al) in N; congruence | split; [exact Al | intros _; cbn [v_blk]; now apply reenc_enc]].
+Qed.
+Lemma vok_empty al : al < NINST -> vok al vec_empty.
+Proof. intros Al. split; [intros _; reflexivity | split; [exact Al | intros H; cbn in H; congruence]]. Qed.
+Lemma vok_same_blk al v v' : v_blk v' = v_blk v -> v_cap v' = v_cap v -> vok al v -> vok al v'.
+Proof. intros Eb Ec (Z & Al & A). split; [intros H; rewrite Ec; apply Z; congruence | split; [exact Al | rewrite Eb; exact A]]. Qed.
+
 Lemma TR_nz ls fs nb : TR ls fs nb -> nb <> 0.
 Proof. intros (_ & (N & _) & _). exact N. Qed.
 Lemma grown_blk_nz nb c v l : nb <> 0 -> vz v -> vinv v l -> 0 < c -> v_blk (grown nb c v l) <> 0.
@@ -165,19 +210,19 @@ Proof.
 Qed.
 
 (* ---- push / emplace_back *)
-Lemma g_push ls fs nb r v l x : TR ls fs nb -> r < 4 -> fs r = vfp v -> vinv v l -> vz v ->
-  exists ls', ev_run ls (grow_evs esz nb (length l + 1) v l ++ [EConstruct (v_blk (grown nb (length l + 1) v l), length l)]) = Some ls' /\
-    TR ls' (set_reg fs r (vfp (pushed nb x v l))) (grown_nb nb (length l + 1) v).
+Lemma g_push ls fs al nb r v l x : TR ls fs (NINST * nb) -> r < 4 -> fs r = vfp v -> vinv v l -> vok al v ->
+  exists ls', ev_run ls (grow_evs esz al (enc al nb) (length l + 1) v l ++ [EConstruct (v_blk (grown (enc al nb) (length l + 1) v l), length l)]) = Some ls' /\
+    TR ls' (set_reg fs r (vfp (pushed (enc al nb) x v l))) (NINST * grown_nb nb (length l + 1) v).
 Proof.
-  intros T Hr Er Hv Z. pose proof (TR_nz _ _ _ T) as Nz.
-  destruct (g_grow ls fs nb r v l (length l + 1) T Hr Er Hv) as (l1 & E1 & T1).
-  set (g := grown nb (length l + 1) v l) in *.
-  destruct (grown_inv nb (length l + 1) v l Hv) as ((Gs & Gc & _) & Gcap). fold g in Gs, Gc, Gcap.
+  intros T Hr Er Hv (Z & Ak). pose proof (TR_nz _ _ _ T) as Nz. assert (Nb : nb <> 0) by (unfold NINST in Nz; lia).
+  destruct (g_grow ls fs al nb r v l (length l + 1) T Hr Er Hv Ak) as (l1 & E1 & T1).
+  set (g := grown (enc al nb) (length l + 1) v l) in *.
+  destruct (grown_inv (enc al nb) (length l + 1) v l Hv) as ((Gs & Gc & _) & Gcap). fold g in Gs, Gc, Gcap.
   destruct (g_fill l1 _ _ r g (length l + 1) T1 Hr) as (l2 & E2 & T2).
   { now rewrite set_reg_same. }
   { lia. }
   { lia. }
-  { left. apply grown_blk_nz; auto. lia. }
+  { left. apply grown_blk_nz; auto; [now apply (enc_nz al) | lia]. }
   rewrite Gs in E2. replace (length l + 1 - length l) with 1 in E2 by lia.
   exists l2. split; [rewrite (ev_run_app_some _ _ _ _ E1); exact E2|].
   eapply TR_ext; [|exact T2]. intros j. rewrite set_reg_set. unfold set_reg. destruct (Nat.eqb j r); [|reflexivity].
@@ -201,14 +246,14 @@ Proof.
 Qed.
 
 (* ---- resize *)
-Lemma g_resize ls fs nb r v l n x : TR ls fs nb -> r < 4 -> fs r = vfp v -> vinv v l -> vz v ->
-  exists ls', ev_run ls (grow_evs esz nb n v l ++ resize_evs nb n v l) = Some ls' /\
-    TR ls' (set_reg fs r (vfp (resized nb n x v l))) (grown_nb nb n v).
+Lemma g_resize ls fs al nb r v l n x : TR ls fs (NINST * nb) -> r < 4 -> fs r = vfp v -> vinv v l -> vok al v ->
+  exists ls', ev_run ls (grow_evs esz al (enc al nb) n v l ++ resize_evs (enc al nb) n v l) = Some ls' /\
+    TR ls' (set_reg fs r (vfp (resized (enc al nb) n x v l))) (NINST * grown_nb nb n v).
 Proof.
-  intros T Hr Er Hv Z. pose proof (TR_nz _ _ _ T) as Nz.
-  destruct (g_grow ls fs nb r v l n T Hr Er Hv) as (l1 & E1 & T1).
-  unfold resize_evs. set (g := grown nb n v l) in *.
-  destruct (grown_inv nb n v l Hv) as ((Gs & Gc & _) & Gcap). fold g in Gs, Gc, Gcap.
+  intros T Hr Er Hv (Z & Ak). pose proof (TR_nz _ _ _ T) as Nz. assert (Nb : nb <> 0) by (unfold NINST in Nz; lia).
+  destruct (g_grow ls fs al nb r v l n T Hr Er Hv Ak) as (l1 & E1 & T1).
+  unfold resize_evs. set (g := grown (enc al nb) n v l) in *.
+  destruct (grown_inv (enc al nb) n v l Hv) as ((Gs & Gc & _) & Gcap). fold g in Gs, Gc, Gcap.
   assert (F1 : set_reg fs r (vfp g) r = vfp g) by now rewrite set_reg_same.
   destruct (Nat.ltb n (length l)) eqn:E.
   - apply Nat.ltb_lt in E.
@@ -217,7 +262,7 @@ Proof.
     eapply TR_ext; [|exact T2]. intros j. rewrite set_reg_set. reflexivity.
   - apply Nat.ltb_ge in E.
     destruct (g_fill l1 _ _ r g n T1 Hr F1) as (l2 & E2 & T2); [lia | lia | |].
-    { destruct (Nat.eq_dec n 0) as [->|Nn]; [now right | left]. apply grown_blk_nz; auto. lia. }
+    { destruct (Nat.eq_dec n 0) as [->|Nn]; [now right | left]. apply grown_blk_nz; auto; [now apply (enc_nz al) | lia]. }
     rewrite Gs in E2.
     exists l2. split; [rewrite (ev_run_app_some _ _ _ _ E1); exact E2|].
     eapply TR_ext; [|exact T2]. intros j. rewrite set_reg_set. reflexivity.
@@ -263,11 +308,11 @@ Definition regs_ok (o : vop) : Prop :=
   | VEq r s | VAssign r s | VMoveAssign r s | VCopyCtor r s | VMoveCtor r s | VSwap r s => r < 3 /\ s < 3
   end.
 
-Definition vzs (rg : nat -> vec) : Prop := forall r, vz (rg r).
-Lemma vzs_set rg r v : vzs rg -> vz v -> vzs (set_reg rg r v).
+Definition voks (al : nat -> nat) (rg : nat -> vec) : Prop := forall r, vok (al r) (rg r).
+Lemma voks_set al rg r a v : voks al rg -> vok a v -> voks (set_reg al r a) (set_reg rg r v).
 Proof. intros Z Hv k. unfold set_reg. destruct (Nat.eqb k r); [exact Hv | apply Z]. Qed.
-Lemma vz_empty : vz vec_empty.
-Proof. intros _. reflexivity. Qed.
+Lemma voks_set_reg al rg r v : voks al rg -> vok (al r) v -> voks al (set_reg rg r v).
+Proof. intros Z Hv k. unfold set_reg. destruct (Nat.eqb_spec k r) as [->|]; [exact Hv | apply Z]. Qed.
 
 Lemma TR_swap ls fs nb a b : TR ls fs nb -> a < 4 -> b < 4 -> TR ls (swap_slots fs a b) nb.
 Proof.
@@ -280,41 +325,43 @@ Lemma TR_reg rg r v' ls' nb' : r < 3 -> TR ls' (set_reg (vfs rg) r (vfp v')) nb'
 Proof. intros Hr T. eapply TR_ext; [|exact T]. intros j. now apply vfs_set. Qed.
 
 Lemma vstep_log st rs o ls :
-  vrel st rs -> vzs (regs st) -> TR ls (vfs (regs st)) (nextb st) -> ref_pre rs o -> regs_ok o ->
-  exists st' e ls', vstep esz st o = Ok (st', snd (ref_step rs o), e) /\ ev_run ls e = Some ls' /\
-    vrel st' (fst (ref_step rs o)) /\ vzs (regs st') /\ TR ls' (vfs (regs st')) (nextb st').
+  vrel st rs -> voks (als st) (regs st) -> TR ls (vfs (regs st)) (NINST * nextb st) -> ref_pre rs o -> regs_ok o ->
+  exists st' e ls', vstep esz veq st o = Ok (st', snd (ref_step veq rs o), e) /\ ev_run ls e = Some ls' /\
+    vrel st' (fst (ref_step veq rs o)) /\ voks (als st') (regs st') /\ TR ls' (vfs (regs st')) (NINST * nextb st').
 Proof.
   intros R Z T P RO.
-  destruct (vstep_refines esz st rs o R P) as (st0 & e0 & Hstep & R').
-  destruct st as [rg nb]. pose proof R as R0. unfold vrel in R0. cbn [regs nextb] in *.
-  pose proof (TR_nz _ _ _ T) as Nz.
-  assert (Fin : forall st' e ls', vstep esz (mk_vst rg nb) o = Ok (st', snd (ref_step rs o), e) ->
-            ev_run ls e = Some ls' -> vzs (regs st') -> TR ls' (vfs (regs st')) (nextb st') ->
-            exists st' e ls', vstep esz (mk_vst rg nb) o = Ok (st', snd (ref_step rs o), e) /\ ev_run ls e = Some ls' /\
-              vrel st' (fst (ref_step rs o)) /\ vzs (regs st') /\ TR ls' (vfs (regs st')) (nextb st')).
+  destruct (vstep_refines esz veq st rs o R P) as (st0 & e0 & Hstep & R').
+  destruct st as [rg al nb]. pose proof R as R0. unfold vrel in R0. cbn [regs als nextb] in *.
+  pose proof (TR_nz _ _ _ T) as Nz. assert (Nb : nb <> 0) by (unfold NINST in Nz; lia).
+  assert (Fin : forall st' e ls', vstep esz veq (mk_vst rg al nb) o = Ok (st', snd (ref_step veq rs o), e) ->
+            ev_run ls e = Some ls' -> voks (als st') (regs st') -> TR ls' (vfs (regs st')) (NINST * nextb st') ->
+            exists st' e ls', vstep esz veq (mk_vst rg al nb) o = Ok (st', snd (ref_step veq rs o), e) /\ ev_run ls e = Some ls' /\
+              vrel st' (fst (ref_step veq rs o)) /\ voks (als st') (regs st') /\ TR ls' (vfs (regs st')) (NINST * nextb st')).
   { intros st' e ls' H1 H2 H3 H4. exists st', e, ls'. split; [exact H1|]. split; [exact H2|]. split; [|split; assumption].
     rewrite Hstep in H1. inversion H1; subst. exact R'. }
   clear Hstep R'.
-  destruct o as [r x|r x|r x|r|r n x|r|r|r|r i|r s|r s|r s|r s|r s|r s]; cbn [vstep regs nextb ref_step fst snd ref_pre regs_ok] in *.
-  1-3: (destruct (g_push ls (vfs rg) nb r (rg r) (rs r) x T) as (l1 & E1 & T1); [lia | now apply vfs_at | apply R0 | apply Z|];
-        eapply Fin; [rewrite (push_eq esz nb x (rg r) (rs r) (R0 r)); reflexivity | exact E1 | |];
-        [cbn [regs]; apply vzs_set; [exact Z | intros B; unfold pushed in *; cbn [v_blk v_cap] in *; now apply (vz_grown nb _ _ _ Nz (Z r))]
+  destruct o as [r x|r x|r x|r|r n x|r|r|r|r i|r s|r s|r s|r s|r s|r s]; cbn [vstep regs als nextb ref_step fst snd ref_pre regs_ok] in *.
+  1-3: (destruct (g_push ls (vfs rg) (al r) nb r (rg r) (rs r) x T) as (l1 & E1 & T1); [lia | now apply vfs_at | apply R0 | apply Z|];
+        eapply Fin; [rewrite (push_eq esz (al r) nb x (rg r) (rs r) (R0 r)); reflexivity | exact E1 | |];
+        [cbn [regs als]; apply voks_set_reg; [exact Z|]; apply (vok_same_blk _ (grown (enc (al r) nb) (length (rs r) + 1) (rg r) (rs r)));
+           [reflexivity | reflexivity | apply vok_grown; [exact Nb | apply Z]]
         | cbn [regs nextb]; now apply TR_reg]).
   - (* pop *)
     destruct (exists_last P) as (l & x & E). pose proof (R0 r) as Hr. rewrite E in Hr.
-    destruct (g_pop ls (vfs rg) nb r (rg r) l x T) as (l1 & E1 & T1); [lia | now apply vfs_at | exact Hr|].
+    destruct (g_pop ls (vfs rg) (NINST * nb) r (rg r) l x T) as (l1 & E1 & T1); [lia | now apply vfs_at | exact Hr|].
     eapply Fin; [rewrite (pop_eq (rg r) l x Hr); cbn [bind]; rewrite E, last_last; reflexivity | exact E1 | |].
-    + cbn [regs]. apply vzs_set; [exact Z | intros B; cbn [v_blk v_cap] in *; now apply Z].
+    + cbn [regs als]. apply voks_set_reg; [exact Z|]. apply (vok_same_blk _ (rg r)); [reflexivity | reflexivity | apply Z].
     + cbn [regs nextb]. now apply TR_reg.
   - (* resize *)
-    destruct (g_resize ls (vfs rg) nb r (rg r) (rs r) n x T) as (l1 & E1 & T1); [lia | now apply vfs_at | apply R0 | apply Z|].
-    eapply Fin; [rewrite (resize_eq esz nb n x (rg r) (rs r) (R0 r)); reflexivity | exact E1 | |].
-    + cbn [regs]. apply vzs_set; [exact Z | intros B; unfold resized in *; cbn [v_blk v_cap] in *; now apply (vz_grown nb _ _ _ Nz (Z r))].
+    destruct (g_resize ls (vfs rg) (al r) nb r (rg r) (rs r) n x T) as (l1 & E1 & T1); [lia | now apply vfs_at | apply R0 | apply Z|].
+    eapply Fin; [rewrite (resize_eq esz (al r) nb n x (rg r) (rs r) (R0 r)); reflexivity | exact E1 | |].
+    + cbn [regs als]. apply voks_set_reg; [exact Z|]. apply (vok_same_blk _ (grown (enc (al r) nb) n (rg r) (rs r)));
+        [reflexivity | reflexivity | apply vok_grown; [exact Nb | apply Z]].
     + cbn [regs nextb]. now apply TR_reg.
   - (* clear *)
-    destruct (g_clear ls (vfs rg) nb r (rg r) (rs r) T) as (l1 & E1 & T1); [lia | now apply vfs_at | apply R0|].
+    destruct (g_clear ls (vfs rg) (NINST * nb) r (rg r) (rs r) T) as (l1 & E1 & T1); [lia | now apply vfs_at | apply R0|].
     eapply Fin; [rewrite (clear_eq (rg r) (rs r) (R0 r)); reflexivity | exact E1 | |].
-    + cbn [regs]. apply vzs_set; [exact Z | intros B; cbn [v_blk v_cap] in *; now apply Z].
+    + cbn [regs als]. apply voks_set_reg; [exact Z|]. apply (vok_same_blk _ (rg r)); [reflexivity | reflexivity | apply Z].
     + cbn [regs nextb]. now apply TR_reg.
   - (* front *)
     eapply Fin; [rewrite (front_eq (rg r) (rs r) (R0 r)); destruct (rs r) as [|y l]; [congruence | reflexivity] | reflexivity | exact Z | exact T].
@@ -325,20 +372,20 @@ Proof.
     eapply Fin; [rewrite (index_eq (rg r) (rs r) i (R0 r)); apply Nat.ltb_lt in P; rewrite P; reflexivity | reflexivity | exact Z | exact T].
   - (* == *)
     destruct RO as [Hr Hs].
-    destruct (equal_eq (rg r) (rg s) (rs r) (rs s) (R0 r) (R0 s)) as (e & He & U).
+    destruct (equal_eq veq (rg r) (rg s) (rs r) (rs s) (R0 r) (R0 s)) as (e & He & U).
     assert (Er : ev_run ls e = Some ls).
     { unfold equal in He. destruct (R0 r) as (Hsr & _). destruct (R0 s) as (Hss & _). rewrite Hsr, Hss in He.
       destruct (Nat.eqb_spec (length (rs s)) (length (rs r))) as [El|Nl]; cbn [negb] in He.
-      - apply (g_equal ls (vfs rg) nb r s (rg r) (rg s) (rs r) (rs s) e T); try lia; try (now apply vfs_at); try apply R0; assumption.
+      - apply (g_equal ls (vfs rg) (NINST * nb) r s (rg r) (rg s) (rs r) (rs s) e T); try lia; try (now apply vfs_at); try apply R0; assumption.
       - inversion He; subst. reflexivity. }
-    eapply Fin; [rewrite He; cbn [bind]; rewrite (list_eqb_sym (rs r) (rs s)); reflexivity | exact Er | exact Z | exact T].
+    eapply Fin; [rewrite He; reflexivity | exact Er | exact Z | exact T].
   - (* copy assignment *)
-    destruct RO as [Hr Hs].
-    destruct (g_copy ls (vfs rg) nb s 3 (rg s) (rs s) T) as (l1 & E1 & T1); [lia | lia | lia | now apply vfs_at | now apply vfs_hi | apply R0|].
-    destruct (g_destruct l1 _ _ r (rg r) (rs r) T1) as (l2 & E2 & T2); [lia | rewrite set_reg_other by lia; now apply vfs_at | apply R0|].
-    eapply Fin; [rewrite (copy_ctor_eq esz nb (rg s) (rs s) (R0 s)); cbn [bind]; rewrite (destruct_eq (rg r) (rs r) (R0 r)); reflexivity
+    destruct RO as [Hr Hs]. destruct (Z s) as (_ & Als & _).
+    destruct (g_copy ls (vfs rg) (al s) nb s 3 (rg s) (rs s) T) as (l1 & E1 & T1); [lia | lia | lia | now apply vfs_at | now apply vfs_hi | apply R0 | exact Als|].
+    destruct (g_destruct l1 _ (al r) _ r (rg r) (rs r) T1) as (l2 & E2 & T2); [lia | rewrite set_reg_other by lia; now apply vfs_at | apply R0 | apply Z|].
+    eapply Fin; [rewrite (copy_ctor_eq esz (al s) nb (rg s) (rs s) (R0 s)); cbn [bind]; rewrite (destruct_eq (al r) (rg r) (rs r) (R0 r)); reflexivity
                 | rewrite (ev_run_app_some _ _ _ _ E1); exact E2 | |].
-    + cbn [regs]. apply vzs_set; [exact Z | now apply vz_copied].
+    + cbn [regs als]. apply voks_set; [exact Z | now apply vok_copied].
     + cbn [regs nextb]. eapply TR_ext; [|apply (TR_swap _ _ _ r 3 T2); lia].
       intros j. rewrite vfs_set by lia. rewrite swap_slots_at. unfold set_reg.
       destruct (Nat.eqb_spec j 3) as [->|N3].
@@ -347,15 +394,17 @@ Proof.
         destruct (Nat.eqb_spec 3 r); [lia|]. now rewrite Nat.eqb_refl.
   - (* move assignment *)
     destruct RO as [Hr Hs].
-    assert (R1 : vrel (mk_vst (set_reg rg s vec_empty) nb) (set_reg rs s [])) by (eapply vrel_set; [exact R | apply vinv_empty]).
+    assert (R1 : vrel (mk_vst (set_reg rg s vec_empty) al nb) (set_reg rs s [])) by (eapply vrel_set; [exact R | apply vinv_empty]).
     pose proof (R1 r) as Hmine. cbn [regs] in Hmine.
     pose proof (TR_swap _ _ _ s 3 T) as T0. specialize (T0 ltac:(lia) ltac:(lia)).
-    destruct (g_destruct ls _ _ r (set_reg rg s vec_empty r) (set_reg rs s [] r) T0) as (l2 & E2 & T2); [lia | | exact Hmine|].
+    assert (Am : aok (al r) (set_reg rg s vec_empty r)).
+    { unfold set_reg. destruct (Nat.eqb r s); [apply vok_empty, Z | apply Z]. }
+    destruct (g_destruct ls _ (al r) _ r (set_reg rg s vec_empty r) (set_reg rs s [] r) T0) as (l2 & E2 & T2); [lia | | exact Hmine | exact Am|].
     { rewrite swap_slots_at. destruct (Nat.eqb_spec r 3); [lia|]. unfold set_reg. destruct (Nat.eqb_spec r s) as [->|Nrs].
       - rewrite vfs_hi by lia. reflexivity.
       - now apply vfs_at. }
-    eapply Fin; [rewrite (destruct_eq _ _ Hmine); reflexivity | exact E2 | |].
-    + cbn [regs]. apply vzs_set; [apply vzs_set; [exact Z | apply vz_empty] | apply Z].
+    eapply Fin; [rewrite (destruct_eq (al r) _ _ Hmine); reflexivity | exact E2 | |].
+    + cbn [regs als]. apply voks_set; [|apply Z]. intros k. unfold set_reg. destruct (Nat.eqb k s); [apply vok_empty, Z | apply Z].
     + cbn [regs nextb]. eapply TR_ext; [|apply (TR_swap _ _ _ r 3 T2); lia].
       intros j. rewrite vfs_set by lia. rewrite !swap_slots_at. unfold set_reg at 1 2.
       destruct (Nat.eqb_spec j 3) as [->|N3].
@@ -367,20 +416,23 @@ Proof.
            ++ rewrite (vfs_hi rg 3) by lia. rewrite vfs_at by lia. now rewrite Nat.eqb_refl.
            ++ unfold vfs, set_reg. now rewrite (proj2 (Nat.eqb_neq j s) Ns).
   - (* copy construction *)
-    destruct RO as [Hr Hs].
+    destruct RO as [Hr Hs]. destruct (Z s) as (_ & Als & _).
     destruct (Nat.eqb_spec r s) as [->|Nrs]; [eapply Fin; [reflexivity | reflexivity | exact Z | exact T]|].
-    destruct (g_destruct ls _ _ r (rg r) (rs r) T) as (l1 & E1 & T1); [lia | now apply vfs_at | apply R0|].
-    destruct (g_copy l1 _ nb s r (rg s) (rs s) T1) as (l2 & E2 & T2); [lia | lia | congruence | rewrite set_reg_other by congruence; now apply vfs_at | now rewrite set_reg_same | apply R0|].
-    eapply Fin; [rewrite (destruct_eq (rg r) (rs r) (R0 r)); cbn [bind]; rewrite (copy_ctor_eq esz nb (rg s) (rs s) (R0 s)); reflexivity
+    destruct (g_destruct ls _ (al r) _ r (rg r) (rs r) T) as (l1 & E1 & T1); [lia | now apply vfs_at | apply R0 | apply Z|].
+    destruct (g_copy l1 _ (al s) nb s r (rg s) (rs s) T1) as (l2 & E2 & T2); [lia | lia | congruence | rewrite set_reg_other by congruence; now apply vfs_at | now rewrite set_reg_same | apply R0 | exact Als|].
+    eapply Fin; [rewrite (destruct_eq (al r) (rg r) (rs r) (R0 r)); cbn [bind]; rewrite (copy_ctor_eq esz (al s) nb (rg s) (rs s) (R0 s)); reflexivity
                 | rewrite (ev_run_app_some _ _ _ _ E1); exact E2 | |].
-    + cbn [regs]. apply vzs_set; [exact Z | now apply vz_copied].
+    + cbn [regs als]. apply voks_set; [exact Z | now apply vok_copied].
     + cbn [regs nextb]. eapply TR_ext; [|exact T2]. intros j. rewrite vfs_set by lia. now rewrite set_reg_set.
   - (* move construction *)
     destruct RO as [Hr Hs].
     destruct (Nat.eqb_spec r s) as [->|Nrs]; [eapply Fin; [reflexivity | reflexivity | exact Z | exact T]|].
-    destruct (g_destruct ls _ _ r (rg r) (rs r) T) as (l1 & E1 & T1); [lia | now apply vfs_at | apply R0|].
-    eapply Fin; [rewrite (destruct_eq (rg r) (rs r) (R0 r)); reflexivity | exact E1 | |].
-    + cbn [regs]. apply vzs_set; [apply vzs_set; [exact Z | apply Z] | apply vz_empty].
+    destruct (g_destruct ls _ (al r) _ r (rg r) (rs r) T) as (l1 & E1 & T1); [lia | now apply vfs_at | apply R0 | apply Z|].
+    eapply Fin; [rewrite (destruct_eq (al r) (rg r) (rs r) (R0 r)); reflexivity | exact E1 | |].
+    + cbn [regs als]. intros k. unfold set_reg.
+      destruct (Nat.eqb_spec k s) as [->|Nks].
+      * destruct (Nat.eqb_spec s r); [congruence|]. apply vok_empty, Z.
+      * destruct (Nat.eqb k r); apply Z.
     + cbn [regs nextb]. eapply TR_ext; [|apply (TR_swap _ _ _ r s T1); lia].
       intros j. rewrite swap_slots_at. unfold vfs, set_reg.
       destruct (Nat.eqb_spec j s) as [->|Ns].
@@ -390,7 +442,7 @@ Proof.
   - (* swap *)
     destruct RO as [Hr Hs].
     eapply Fin; [reflexivity | reflexivity | |].
-    + cbn [regs]. apply vzs_set; [apply vzs_set; [exact Z | apply Z] | apply Z].
+    + cbn [regs als]. intros k. unfold set_reg. destruct (Nat.eqb k s); [apply Z|]. destruct (Nat.eqb k r); apply Z.
     + cbn [regs nextb]. eapply TR_ext; [|apply (TR_swap _ _ _ r s T); lia].
       intros j. rewrite swap_slots_at. unfold vfs, set_reg.
       destruct (Nat.eqb_spec j s) as [->|Ns].
@@ -399,25 +451,24 @@ Proof.
         now rewrite (proj2 (Nat.ltb_lt s 3) Hs), (proj2 (Nat.ltb_lt r 3) Hr).
 Qed.
 
-
 Lemma vrun_log : forall ops st rs ls,
-  vrel st rs -> vzs (regs st) -> TR ls (vfs (regs st)) (nextb st) -> ref_ok rs ops -> Forall regs_ok ops ->
-  exists st' e ls', vrun esz st ops = Ok (st', snd (ref_run rs ops), e) /\ ev_run ls e = Some ls' /\
-    vrel st' (fst (ref_run rs ops)) /\ vzs (regs st') /\ TR ls' (vfs (regs st')) (nextb st').
+  vrel st rs -> voks (als st) (regs st) -> TR ls (vfs (regs st)) (NINST * nextb st) -> ref_ok veq rs ops -> Forall regs_ok ops ->
+  exists st' e ls', vrun esz veq st ops = Ok (st', snd (ref_run veq rs ops), e) /\ ev_run ls e = Some ls' /\
+    vrel st' (fst (ref_run veq rs ops)) /\ voks (als st') (regs st') /\ TR ls' (vfs (regs st')) (NINST * nextb st').
 Proof.
   induction ops as [|o ops IH]; intros st rs ls R Z T K RO.
   - exists st, [], ls. split; [reflexivity|]. split; [reflexivity|]. split; [exact R|]. split; [exact Z | exact T].
   - destruct K as [P K]. inversion RO as [|? ? RO1 RO2]; subst.
     destruct (vstep_log st rs o ls R Z T P RO1) as (st1 & e1 & l1 & H1 & E1 & R1 & Z1 & T1).
     cbn [vrun ref_run]. rewrite H1. cbn [bind].
-    destruct (ref_step rs o) as [rs1 x] eqn:Es. cbn [fst snd] in *.
+    destruct (ref_step veq rs o) as [rs1 x] eqn:Es. cbn [fst snd] in *.
     destruct (IH st1 rs1 l1 R1 Z1 T1 K RO2) as (st2 & e2 & l2 & H2 & E2 & R2 & Z2 & T2). rewrite H2. cbn [bind].
-    destruct (ref_run rs1 ops) as [rs2 xs]. cbn [fst snd] in *.
+    destruct (ref_run veq rs1 ops) as [rs2 xs]. cbn [fst snd] in *.
     exists st2, (e1 ++ e2), l2. split; [reflexivity|]. split; [rewrite (ev_run_app_some _ _ _ _ E1); exact E2|].
     split; [exact R2|]. split; [exact Z2 | exact T2].
 Qed.
 
-Lemma TR0 : TR ls0 (vfs (regs vst0)) (nextb vst0).
+Lemma TR0 : TR ls0 (vfs (regs vst0)) (NINST * nextb vst0).
 Proof.
   assert (E : forall j, vfs (regs vst0) j = fp0) by (intros j; unfold vfs; destruct (Nat.ltb j 3); reflexivity).
   split; [|split].
@@ -427,16 +478,18 @@ Proof.
     + intros i j _ _ _. rewrite !E. apply sep_fp0.
   - apply E.
 Qed.
+Lemma voks0 : voks (als vst0) (regs vst0).
+Proof. intros r. apply vok_empty. cbn [als vst0]. unfold NINST. lia. Qed.
 
-Lemma vfinish_log st rs ls : vrel st rs -> TR ls (vfs (regs st)) (nextb st) ->
+Lemma vfinish_log st rs ls : vrel st rs -> voks (als st) (regs st) -> TR ls (vfs (regs st)) (NINST * nextb st) ->
   exists e ls', vfinish st = Ok e /\ ev_run ls e = Some ls' /\ blocks ls' = [] /\ live ls' = [].
 Proof.
-  intros R T. destruct st as [rg nb]. cbn [regs nextb] in *. pose proof R as R0. unfold vrel in R0. cbn [regs] in R0.
-  unfold vfinish, nregs. cbn [regs destruct_regs].
-  rewrite (destruct_eq (rg 0) (rs 0) (R0 0)), (destruct_eq (rg 1) (rs 1) (R0 1)), (destruct_eq (rg 2) (rs 2) (R0 2)). cbn [bind].
-  destruct (g_destruct ls _ _ 0 (rg 0) (rs 0) T) as (l1 & E1 & T1); [lia | apply vfs_at; lia | apply R0|].
-  destruct (g_destruct l1 _ _ 1 (rg 1) (rs 1) T1) as (l2 & E2 & T2); [lia | rewrite set_reg_other by lia; apply vfs_at; lia | apply R0|].
-  destruct (g_destruct l2 _ _ 2 (rg 2) (rs 2) T2) as (l3 & E3 & T3); [lia | rewrite !set_reg_other by lia; apply vfs_at; lia | apply R0|].
+  intros R Z T. destruct st as [rg al nb]. cbn [regs als nextb] in *. pose proof R as R0. unfold vrel in R0. cbn [regs] in R0.
+  unfold vfinish, nregs. cbn [regs als destruct_regs].
+  rewrite (destruct_eq (al 0) (rg 0) (rs 0) (R0 0)), (destruct_eq (al 1) (rg 1) (rs 1) (R0 1)), (destruct_eq (al 2) (rg 2) (rs 2) (R0 2)). cbn [bind].
+  destruct (g_destruct ls _ (al 0) _ 0 (rg 0) (rs 0) T) as (l1 & E1 & T1); [lia | apply vfs_at; lia | apply R0 | apply Z|].
+  destruct (g_destruct l1 _ (al 1) _ 1 (rg 1) (rs 1) T1) as (l2 & E2 & T2); [lia | rewrite set_reg_other by lia; apply vfs_at; lia | apply R0 | apply Z|].
+  destruct (g_destruct l2 _ (al 2) _ 2 (rg 2) (rs 2) T2) as (l3 & E3 & T3); [lia | rewrite !set_reg_other by lia; apply vfs_at; lia | apply R0 | apply Z|].
   eexists. exists l3. split; [reflexivity|]. split.
   - rewrite (ev_run_app_some _ _ _ _ E1), (ev_run_app_some _ _ _ _ E2), app_nil_r. exact E3.
   - apply (tracks_all_empty VK). destruct T3 as (T3 & _). eapply tracks_ext; [|exact T3].
@@ -446,14 +499,14 @@ Qed.
 Lemma wf_closed_of_run l ls : ev_run ls0 l = Some ls -> blocks ls = [] -> live ls = [] -> wf_closed l = true.
 Proof. intros E B L. unfold wf_closed. now rewrite E, B, L. Qed.
 
-Theorem vector_log_wf : forall ops, ref_ok rs0 ops -> Forall regs_ok ops ->
-  exists st outs e fin, vrun esz vst0 ops = Ok (st, outs, e) /\ vfinish st = Ok fin /\ wf_closed (e ++ fin) = true.
+Theorem vector_log_wf : forall ops, ref_ok veq rs0 ops -> Forall regs_ok ops ->
+  exists st outs e fin, vrun esz veq vst0 ops = Ok (st, outs, e) /\ vfinish st = Ok fin /\ wf_closed (e ++ fin) = true.
 Proof.
   intros ops K RO.
-  destruct (vrun_log ops vst0 rs0 ls0 vrel0 (fun _ => vz_empty) TR0 K RO) as (st & e & l1 & H & E & R & Z & T).
-  destruct (vfinish_log st _ l1 R T) as (fin & l2 & F & E2 & B & L).
-  exists st, (snd (ref_run rs0 ops)), e, fin. split; [exact H|]. split; [exact F|].
+  destruct (vrun_log ops vst0 rs0 ls0 vrel0 voks0 TR0 K RO) as (st & e & l1 & H & E & R & Z & T).
+  destruct (vfinish_log st _ l1 R Z T) as (fin & l2 & F & E2 & B & L).
+  exists st, (snd (ref_run veq rs0 ops)), e, fin. split; [exact H|]. split; [exact F|].
   apply (wf_closed_of_run _ l2); [rewrite (ev_run_app_some _ _ _ _ E); exact E2 | exact B | exact L].
 Qed.
 
-End WithElemSize.
+End WithElem.
